@@ -124,6 +124,10 @@ def MState.init : MState := ⟨.dict [], Mgr.empty, [], [], false, none, []⟩
 
 def lookDef (defs : List MTask) (id : Path) : Option MTask := defs.find? (fun t => decide (t.id = id))
 
+/-- `self.tasks[taskid]`, `KeyError` for a stale id -/
+def lookTask (defs : List MTask) (id : Path) : Except Err MTask :=
+  match lookDef defs id with | some t => .ok t | none => .error .keyError
+
 abbrev Res := MState × Option Err
 
 /-- one container write through a ref (`ref._set_value(v)`), with fault injection -/
@@ -221,8 +225,7 @@ def findTaskids (m : Mgr Path Path) (startDeps : List Path) : List Path :=
 
 /-- `Manager.find_tasks`: `[self.tasks[taskid] for taskid in …]`, `KeyError` for a stale id -/
 def findTasks (s : MState) (startDeps : List Path) : Except Err (List MTask) :=
-  (findTaskids s.idx startDeps).mapM (fun id =>
-    match lookDef s.defs id with | some t => .ok t | none => .error .keyError)
+  (findTaskids s.idx startDeps).mapM (lookTask s.defs)
 
 /-- `Manager.find_deps(start_set)`: toposort over `rdeps` -/
 def findDeps (m : Mgr Path Path) (start : List Path) : List Path :=
@@ -265,8 +268,7 @@ def writeAndRun (sched : Sched) (s : MState) (p : Path) (v : Val) : Res :=
   match writeRef s p v with
   | (s1, some x) => (s1, some x)
   | (s1, none) =>
-    match (sched (findTaskids s1.idx (chainR p))).mapM (fun id =>
-        match lookDef s1.defs id with | some t => Except.ok t | none => Except.error Err.keyError) with
+    match (sched (findTaskids s1.idx (chainR p))).mapM (lookTask s1.defs) with
     | .error x => (s1, some x)
     | .ok l => runTasks s1 l
 
@@ -307,8 +309,7 @@ def execGen (sched : Sched) (s : MState) (args : List (Path × Val)) : Res :=
   | (s1, some x) => (s1, some x)
   | (s1, none) =>
     -- `mk_fun` (repaired): the start set is the owner chains of all argument refs
-    match (sched (findTaskids s1.idx (args.flatMap (fun a => chainR a.1)))).mapM (fun id =>
-        match lookDef s1.defs id with | some t => Except.ok t | none => Except.error Err.keyError) with
+    match (sched (findTaskids s1.idx (args.flatMap (fun a => chainR a.1)))).mapM (lookTask s1.defs) with
     | .error x => (s1, some x)
     | .ok l => runTasks s1 l
 
